@@ -42,7 +42,12 @@ def run(ctx):
     from .. import wrappers
     wrappers.heartbeat_inc(ctx, rep, roles, "C05", "R05.10")
     from .. import identity
-    identity.check(ctx, rep, "C05", "R05.11", ["id-eq"])
+    identity.check(ctx, rep, "C05", "R05.11", ["id-eq", "id-ord", "id-hash"])
+    # the admission test that protects the own namespace compares the DECODED max version of the member delta: the decoder must
+    # attach SetMaxVersion to the current member only (seed R3-C05-2)
+    from . import c03
+    c03.r03_3(ctx, rep, roles)
+    ctx.report.rules[-1].id = "R05.12(R03.3)"
 
 
 PUB_CHITCHAT_MUT = {"self_node_state": "own copy only", "catchup": "documented catch-up entry (C18)"}
